@@ -124,6 +124,16 @@ CHECKS["C13"] = dict(_mem, ref="4 (Engine MEM, C13)",
          "side wakes every blocked task of the other side within 3 loop cycles (no deadlock); statistics().open_* equal the "
          "model at every record; closing twice is a no-op. Exploration level.")
 
+CHECKS["C06"] = dict(engine="sc-deadlines", ref="4 (Engine SC, C06)",
+    technique="deterministic simulation: seeded deadline-scope programs on a virtual clock compared event by event with an "
+              "independent discrete-event reference interpreter (exact sub-mode) / with late wake-ups injected (late sub-mode)",
+    text="Seeded search over nests of deadline scopes (CancelScope(deadline), move_on_after/at, fail_after/at, shields, past "
+         "deadlines), dyadic sleeps, deadline reassignments and current_effective_deadline() probes in 1-4 tasks. A ~100-line "
+         "reference interpreter predicts the virtual time of every interruption, the absorbing scope, every cancelled_caught, "
+         "every TimeoutError and every probe value; the observed history must be equal (exact mode: equal times, no "
+         "tolerance; late mode: never early, decisions by nominal deadline order). Ties (sleep ending exactly at a deadline) "
+         "follow the observed outcome, nothing else does. Exploration level.")
+
 NOT_YET = "check not built yet in this snapshot of /verif (work in progress; see DESIGN.md section 4 for the plan)"
 
 
@@ -148,7 +158,7 @@ def main():
     engines = {}
     for pid, c in CHECKS.items():
         engines.setdefault(c["engine"], []).append(pid)
-    paths = {"sync-permits": "engines/permits.py", "sc": "engines/sc.py", "sync-conditions": "engines/conds.py", "sync-checkpoints": "engines/checkpoints.py", "mem": "engines/mem.py"}
+    paths = {"sync-permits": "engines/permits.py", "sc": "engines/sc.py", "sync-conditions": "engines/conds.py", "sync-checkpoints": "engines/checkpoints.py", "mem": "engines/mem.py", "sc-deadlines": "engines/deadlines.py"}
     try:
         hooks = [l.split()[0] for l in subprocess.run(
             ["git", "-C", "/repo", "log", "--format=%h %s", "--grep=^hook:"], capture_output=True, text=True
